@@ -67,6 +67,19 @@ class Aw:
         return self.coro.__await__()
 
 
+class FalsyContext(Context):
+    """A Context subclass that happens to be falsy (it has a length - of 0): still a perfectly
+    good context.  Anything that decides "is there a context / a parent" by truthiness
+    instead of `is None` goes wrong for it."""
+
+    def __len__(self) -> int:
+        return 0
+
+
+def _mk(falsy: Any, *args: Any) -> Context:
+    return FalsyContext(*args) if falsy else Context(*args)
+
+
 def _mentions_corruption(e: BaseException) -> bool:
     """A RuntimeError about the open child is reported - raised itself or chained/grouped."""
     seen: set = set()
@@ -127,9 +140,9 @@ class H:
         cid = b["id"]
         pmode = b.get("parent", "implicit")
         if pmode == "explicit" and exp is not None and exp in self.ctxs:
-            ctx = Context(self.ctxs[exp])
+            ctx = _mk(b.get("falsy"), self.ctxs[exp])
         else:
-            ctx = Context()
+            ctx = _mk(b.get("falsy"))
         self.know(ctx, cid)
         sim.log("ctx_new", ctx=cid, parent=self.cid(ctx.parent), exp=exp, closed=ctx.closed)
         if b.get("pre_ops"):
@@ -137,7 +150,7 @@ class H:
         if b.get("via"):
             # entered later, from inside another context: the parent stays the context that
             # was current at creation, and leaving restores the intermediate context
-            via = Context()
+            via = _mk(b.get("falsy"))
             self.know(via, b["via"])
             async with via:
                 self.at(b["via"], "via_enter")
@@ -204,7 +217,7 @@ class H:
         that exception is what ends the block from the context's point of view."""
         sim = self.sim
         cid = b["id"]
-        ctx = Context()
+        ctx = _mk(b.get("falsy"))
         self.know(ctx, cid)
         sim.log("ctx_new", ctx=cid, parent=self.cid(ctx.parent), exp=exp, closed=ctx.closed)
         cls = (b.get("end") or {}).get("exc") or "SimError"
@@ -306,17 +319,84 @@ class H:
 
         await owner.start_service_task(body, name, teardown_action=spec.get("action", "cancel"))
 
+    async def corrupt_mid(self, spec: dict) -> None:
+        """The parent's block is left while a child - entered and left in *another task* - is
+        in the middle of its teardown (suspended inside an awaiting teardown callback): the
+        child has not finished closing, so it is still an open child."""
+        sim = self.sim
+        in_td = anyio.Event()
+        release = anyio.Event()
+        child_done = anyio.Event()
+        h = self
+
+        async def other() -> None:
+            c = Context()  # created in a task spawned inside p: p is its parent
+            h.know(c, spec["cid"])
+            sim.log("corrupt_begin", p=spec["pid"], c=spec["cid"], parent=h.cid(c.parent), root=p.parent is None, how="mid_teardown")
+            try:
+                async with c:
+
+                    async def slow_cb() -> None:
+                        in_td.set()
+                        with CancelScope(shield=True):
+                            await release.wait()
+
+                    c.add_teardown_callback(slow_cb)
+                    await sim.pause(*spec.get("child_body", (0, 0.0)))
+            finally:
+                in_td.set()
+                child_done.set()
+
+        async with create_task_group() as tg:
+            p = _mk(spec.get("falsy_parent"))
+            self.know(p, spec["pid"])
+            await p.__aenter__()
+            tg.start_soon(other, name="w:mid_child")
+            try:
+                await in_td.wait()
+                await sim.pause(*spec.get("gap", (0, 0.0)))
+            except BaseException as e:
+                # the run is being cancelled: no experiment; close everything in order
+                release.set()
+                with CancelScope(shield=True):
+                    await child_done.wait()
+                    try:
+                        await p.__aexit__(type(e), e, e.__traceback__)
+                    except BaseException:  # noqa: BLE001
+                        pass
+                raise
+            if child_done.is_set():
+                release.set()
+                await p.__aexit__(None, None, None)
+                return
+            try:
+                await p.__aexit__(None, None, None)
+            except BaseException as e:
+                sim.log(
+                    "corrupt_exit", p=spec["pid"], exc=describe(e), cls=type(e).__name__, closed=p.closed,
+                    root=p.parent is None, how="mid_teardown", reported=_mentions_corruption(e),
+                )
+                release.set()
+                if contains_cancel(e):
+                    raise
+            else:
+                sim.log("corrupt_exit", p=spec["pid"], exc=None, cls=None, closed=p.closed, root=p.parent is None, how="mid_teardown", reported=False)
+                release.set()
+
     async def corrupt(self, spec: dict) -> None:
         """Leave a context while a child context entered from it is still open - cleanly,
         with an exception, or with a cancellation in flight."""
         sim = self.sim
-        p = Context()
+        how = spec.get("how", "clean")
+        if how == "mid_teardown":
+            await self.corrupt_mid(spec)
+            return
+        p = _mk(spec.get("falsy_parent"))
         self.know(p, spec["pid"])
         await p.__aenter__()
         c = Context()
         self.know(c, spec["cid"])
         await c.__aenter__()
-        how = spec.get("how", "clean")
         sim.log("corrupt_begin", p=spec["pid"], c=spec["cid"], parent=self.cid(c.parent), root=p.parent is None, how=how)
         try:
             if how == "clean":
@@ -1040,7 +1120,9 @@ def oracle(sim: Sim, plan: dict) -> list[dict]:
         elif kind == "corrupt_exit":
             if not d["reported"]:
                 key = "silent"
-                if d.get("root") and d.get("how") != "clean":
+                if d.get("how") == "mid_teardown":
+                    key = "silent_mid_teardown"
+                elif d.get("root") and d.get("how") != "clean":
                     key = "silent_root_failing_exit"
                 v(
                     "C13.corruption",
@@ -1224,6 +1306,11 @@ def gen(rng: random.Random, tier: str, prop: str) -> dict:
             plan["cancel"] = {"frac": round(rng.random(), 4)}
     if rng.random() < 0.3:
         plan["probe_every"] = True
+    if rng.random() < 0.08:
+        # some of the contexts are instances of a falsy Context subclass
+        for b in walk_blocks(plan["root"]):
+            if rng.random() < 0.5:
+                b["falsy"] = True
     return plan
 
 
@@ -1368,7 +1455,9 @@ def gen_c13(g: G) -> dict:
                                 {
                                     "pid": f"x{g.nctx - 1}",
                                     "cid": f"x{g.nctx}",
-                                    "how": rng.choice(("clean", "clean", "exception", "base_exception")),
+                                    "how": rng.choice(("clean", "clean", "exception", "base_exception", "mid_teardown", "mid_teardown")),
+                                    "falsy_parent": rng.random() < 0.15,
+                                    "gap": [rng.choice((0, 1, 2)), rng.choice((0.0, 0.0, 0.5))],
                                 },
                             ]
                         ],
